@@ -167,6 +167,9 @@ type Ctx struct {
 	Run  int
 	R    *prng.Rand
 	hash uint64
+	// onlyProgram restricts pickRecord to the program of that schema name (a fixed share of
+	// a check's runs goes to a core program whose shape the general draw reaches too rarely)
+	onlyProgram string
 }
 
 func (c *Ctx) Count(name string, d int64) {
